@@ -429,8 +429,9 @@ class Frame:
             self.perm.extend(live_perm)
             if isinstance(dead_o, Ret):
                 self.pending.append((T.and_(self.pc + [dead_c]), dead_o.term))
-                # the function has returned on the other path: what follows changes an object's state only where this path is taken
-                self.ret_perm.append(T.and_(self.pc + [live_c]))
+                # the function has returned on the other path: what follows changes an object's state only where that return was not taken
+                # (stated as the negation of the returning path, so that it holds on every later path, also outside the enclosing branches)
+                self.ret_perm.append(T.not_(T.and_(self.pc + [dead_c])))
             return FALL
         # both branches leave
         if isinstance(o1, Ret) and isinstance(o2, Ret):
